@@ -92,6 +92,11 @@ class Report:
             self.cov["caps_hit"] = self.caps
         if self.known_hits:
             self.cov["known_findings_hit"] = self.known_hits
+        if self.violations:
+            cnt = {}
+            for sig, _ in self.violations:
+                cnt[sig] = cnt.get(sig, 0) + 1
+            self.cov["violation_signatures"] = dict(sorted(cnt.items(), key=lambda kv: -kv[1])[:80])
         ev = {"property_id": self.pid, "tier": self.tier, "seed": self.seed, "level": self.level,
               "coverage": self.cov, "assumptions": self.assumptions,
               "wall_s": round(time.time() - self.t0, 2), "violations": len(self.violations)}
